@@ -74,7 +74,7 @@ impl Prop for C17 {
         true
     }
     fn cases(&self, ctx: &Ctx) -> u64 {
-        ctx.tier.pick(900, 12_000)
+        ctx.tier.pick(5000, 30_000)
     }
     fn rule(&self) -> &'static str {
         "real binary on byte files and piped stdin/stdout: texts with non-ASCII identifiers, strings and comments drawn from what each encoding can represent (plus astral characters / surrogate pairs for the Unicode encodings) x 25 configured encodings (single-byte code pages, CJK multi-byte, UTF-8) x {no BOM, UTF-8 BOM, UTF-16LE BOM, UTF-16BE BOM} incl. BOM != configured encoding x {file, stdin}; reference formatting = library call on the decoded text; oracles: bytes written == BOM + encode(F(decode(bytes))); BOM kept and deciding; malformed input (invalid sequences, odd-length UTF-16, lone surrogates) rejected with non-zero status and the file untouched. Non-trivial: text has a non-ASCII character; distinct by (bytes, encoding, BOM)."
